@@ -150,6 +150,12 @@ def gen_groupdefs(rng, deep=False):
         if ents:
             defs.append((sym, ents))
             syms.append(sym)
+    if defs and rng.random() < 0.2:
+        # a second group whose symbol differs from an existing one only in letter case (subsections are case-sensitive)
+        sym0, _ = rng.choice(defs)
+        twin = sym0.swapcase() if rng.random() < 0.5 else sym0[:1].swapcase() + sym0[1:]
+        if twin != sym0 and twin not in syms and twin.lower() not in ("ignored", "other") and not twin.lower().endswith(".other"):
+            defs.append((twin, [("i", rng.choice([b"refs/tags", b"refs/remotes", b"refs/foo", b"refs/heads/feature"]))]))
     return defs, defs_to_cfg(defs)
 
 
